@@ -80,8 +80,18 @@ func (a aval) String() string {
 	case aRKind:
 		return "reflect.Kind(" + typeString(a.Tag) + ")"
 	case aFunc:
+		if len(a.L) > 0 {
+			parts := make([]string, len(a.L))
+			for i, e := range a.L {
+				parts[i] = e.String()
+			}
+			return "func " + a.Fn.Name() + "{" + strings.Join(parts, " ") + "}"
+		}
 		return "func " + a.Fn.Name()
 	case aConcrete:
+		if a.Idx != 0 {
+			return fmt.Sprintf("non-nil value#%d", a.Idx)
+		}
 		return "non-nil value"
 	}
 	return "?"
@@ -344,10 +354,20 @@ const maxSteps = 200000
 
 // Eval abstractly evaluates fn on the given argument values.
 func (te *tagEval) Eval(fn *ssa.Function, args []aval, depth int) []outcome {
+	return te.evalClosure(fn, args, nil, depth)
+}
+
+// evalClosure is Eval for a function literal whose free variables are bound to free.
+func (te *tagEval) evalClosure(fn *ssa.Function, args []aval, free []aval, depth int) []outcome {
 	if len(fn.Blocks) == 0 || depth > 10 {
 		return []outcome{{Vals: make([]aval, fn.Signature.Results().Len())}}
 	}
 	fr := &frame{fn: fn, env: map[ssa.Value]aval{}, tuples: map[ssa.Value][]aval{}, visits: map[*ssa.BasicBlock]int{}}
+	for i, fv := range fn.FreeVars {
+		if i < len(free) {
+			fr.env[fv] = free[i]
+		}
+	}
 	for i, p := range fn.Params {
 		if i < len(args) {
 			fr.env[p] = args[i]
@@ -392,6 +412,9 @@ func (te *tagEval) val(fr *frame, v ssa.Value) aval {
 		return aval{K: aConst, C: x.Value}
 	case *ssa.Global:
 		return aval{K: aGlobal, G: x}
+	case *ssa.Function:
+		// a function used as a value (handed back by a selector function, stored, called later)
+		return aval{K: aFunc, Fn: x}
 	}
 	return aval{}
 }
@@ -526,6 +549,12 @@ func (te *tagEval) run(fr *frame, b *ssa.BasicBlock, pred *ssa.BasicBlock, depth
 							fr.env[x] = xv.L[k]
 						}
 					}
+					if xv.K == aPtr && xv.C != nil {
+						// the cell of a captured variable
+						if v, ok := te.heap[xv.Idx][0]; ok {
+							fr.env[x] = v
+						}
+					}
 					if xv.K == aFieldRef {
 						f, _ := constant.Int64Val(xv.C)
 						if v, ok := te.heap[xv.Idx][int(f)]; ok {
@@ -587,7 +616,20 @@ func (te *tagEval) run(fr *frame, b *ssa.BasicBlock, pred *ssa.BasicBlock, depth
 				if te.heap != nil {
 					if _, isStruct := x.Type().Underlying().(*types.Pointer).Elem().Underlying().(*types.Struct); isStruct {
 						fr.env[x] = te.newObj(nil)
+					} else if x.Heap {
+						// a variable captured by a function literal: a cell with one slot
+						cell := te.newObj(nil)
+						cell.C = constant.MakeInt64(0)
+						fr.env[x] = cell
 					}
+				}
+			case *ssa.MakeClosure:
+				if f, ok := x.Fn.(*ssa.Function); ok {
+					fv := aval{K: aFunc, Fn: f}
+					for _, bnd := range x.Bindings {
+						fv.L = append(fv.L, te.val(fr, bnd))
+					}
+					fr.env[x] = fv
 				}
 			case *ssa.FieldAddr:
 				if bv := te.val(fr, x.X); bv.K == aPtr {
@@ -645,6 +687,8 @@ func (te *tagEval) run(fr *frame, b *ssa.BasicBlock, pred *ssa.BasicBlock, depth
 				if av := te.val(fr, x.Addr); av.K == aFieldRef {
 					f, _ := constant.Int64Val(av.C)
 					te.heap[av.Idx][int(f)] = te.val(fr, x.Val)
+				} else if av.K == aPtr && av.C != nil {
+					te.heap[av.Idx][0] = te.val(fr, x.Val)
 				}
 				if te.storeObs != nil {
 					te.storeObs(x, te.val(fr, x.Val), func(v ssa.Value) aval { return te.val(fr, v) })
@@ -888,21 +932,24 @@ func (te *tagEval) call(fr *frame, call *ssa.Call, depth int, outs *[]outcome) {
 		return
 	}
 	g := staticCallee(call)
-	if g == nil && !cc.IsInvoke() {
-		// a function value taken from a dispatch table
-		if fv := te.val(fr, cc.Value); fv.K == aFunc {
-			g = fv.Fn
+	var free []aval
+	if !cc.IsInvoke() {
+		// a function value taken from a dispatch table, or a function literal with its captured variables
+		if fv := te.val(fr, cc.Value); fv.K == aFunc && (g == nil || te.c.declared(g) == te.c.declared(fv.Fn)) {
+			g, free = fv.Fn, fv.L
 		}
 	}
 	if g == nil {
 		return
 	}
-	g = te.c.declared(g)
+	if free == nil {
+		g = te.c.declared(g)
+	}
 	if !te.c.IsLib(g) || len(g.Blocks) == 0 {
 		return
 	}
 	args := make([]aval, len(cc.Args))
-	known := false
+	known := len(free) > 0
 	for i, a := range cc.Args {
 		args[i] = te.val(fr, a)
 		if args[i].K != aUnknown {
@@ -913,7 +960,7 @@ func (te *tagEval) call(fr *frame, call *ssa.Call, depth int, outs *[]outcome) {
 		te.unevaluated++
 		return
 	}
-	res := te.Eval(g, args, depth+1)
+	res := te.evalClosure(g, args, free, depth+1)
 	nres := g.Signature.Results().Len()
 	var rets []outcome
 	for _, o := range res {
